@@ -929,6 +929,26 @@ def gen_secondary_step(rng, forest, scope_p=None):
   return None
 
 
+def open_restored_defaults(step, target, post, w):
+  """A patch_on_* call whose new value is MISSING_VALUE asks for every matched
+  location to go back to its default; for a location that already holds its
+  default an event is left open (as for rebind to MISSING_VALUE). Which
+  locations matched is the library's business: every member below the receiver
+  that the call left untouched is an OPTIONAL location of this call."""
+  if step['op'] not in PATCH_APIS or step['args']['v'] != ['missing']:
+    return
+  ti = post.get(target)
+  if ti is None:
+    return
+  have = {(e[0], repr(e[1])) for e in w.entries}
+  for cid, info in post.info.items():
+    if info.ridx == ti.ridx and info.keys[:len(ti.keys)] == ti.keys and \
+        not isinstance(info.node, pg.List):
+      for k, v in info.members:
+        if (cid, repr(k)) not in have:
+          w.entries.append((cid, k, v, v, False))
+
+
 def as_rebind(step):
   """pg.patch with a dict rule (given directly or made by a patcher) writes the
   listed paths like a rebind: same model of the written locations."""
@@ -1031,6 +1051,98 @@ def derived_mechanism(step, status, fn_written):
                 else '@below-functor-arg')
 
 
+# ------------------------------------- answers mutated by the caller --------
+# The derived-fact getters hand plain dicts to the caller. Clearing, popping
+# from or adding to such a dict (at any nesting level) is an ordinary thing for
+# a caller to do with a returned plain dict; the contents of the tree did not
+# change, so every derived fact of every node must still be what it was a
+# moment ago (those answers have just been compared with fresh copies).
+
+ANSWER_GETTERS = {
+    'missing': ('sym_missing', 'missing_values'),
+    'nondefault': ('sym_nondefault', 'non_default_values'),
+}
+P_TAMPER_STEP = 0.1
+JUNK = '__junk__'
+
+
+def copy_answer(v):
+  """A caller-side copy of an answer: nested plain dicts are copied."""
+  if type(v) is dict:
+    return {k: copy_answer(x) for k, x in v.items()}
+  return v
+
+
+def copy_facts(facts):
+  return {name: (st, copy_answer(v)) for name, (st, v) in facts.items()}
+
+
+def mutate_answer(rng, ans, depth=0):
+  """Mutates a returned dict in place at a randomly chosen nesting level.
+  Returns the nesting level at which the dict was changed."""
+  nested = [k for k, v in ans.items() if type(v) is dict]
+  if nested and rng.random() < (0.55 if depth < 3 else 0.0):
+    return mutate_answer(rng, ans[rng.choice(nested)], depth + 1)
+  r = rng.random()
+  if ans and r < 0.4:
+    ans.clear()
+  elif ans and r < 0.65:
+    ans.pop(rng.choice(list(ans)))
+  elif ans and r < 0.8:
+    ans[rng.choice(list(ans))] = JUNK
+  else:
+    ans[JUNK] = JUNK
+  return depth
+
+
+def tamper_answers(rng, forest, c):
+  """Asks one node one dict-valued derived fact (either kind, flatten both
+  ways, either spelling), mutates the returned dict, and asks every node of
+  that tree every fact again.
+
+  Returns None (nothing could be asked) or (kind, flatten, problems) with
+  problems = [(ridx, keys, type name, fact, before, after)]."""
+  nodes = [x for x in H.all_nodes(forest)
+           if not isinstance(x[2], pg.Ref) and not in_hyper(forest, x[0], x[1])]
+  if not nodes:
+    return None
+  kind = rng.choice(sorted(ANSWER_GETTERS))
+  flatten = rng.random() < 0.35
+  getter = rng.choice(ANSWER_GETTERS[kind])
+  # Prefer a node whose answer is not empty (7 draws), else any node.
+  pick = None
+  for _ in range(7):
+    ridx, keys, node = rng.choice(nodes)
+    try:
+      if getattr(node, getter)(flatten=flatten):
+        pick = (ridx, keys, node)
+        break
+    except Exception:  # pylint: disable=broad-except
+      continue
+  ridx, keys, node = pick or rng.choice(nodes)
+  tree = [(ks, n) for ri, ks, n in nodes if ri == ridx]
+  before = {tuple(ks): copy_facts(DV.read(n)) for ks, n in tree}
+  try:
+    ans = getattr(node, getter)(flatten=flatten)
+  except Exception:  # pylint: disable=broad-except
+    return None
+  if type(ans) is not dict:
+    return None
+  c['returned_answers_mutated'] += 1
+  c['returned_answers_mutated_nonempty'] += bool(ans)
+  c['returned_answers_mutated:%s(flatten=%s)' % (kind, flatten)] += 1
+  level = mutate_answer(rng, ans)
+  c['returned_answers_mutated_below_top_level'] += level > 0
+  problems = []
+  for ks, n in tree:
+    after = DV.read(n)
+    for name, b in before[tuple(ks)].items():
+      c['answers_reasked_after_caller_mutation'] += 1
+      if not DV.facts_equal(b, after[name]):
+        problems.append((ridx, list(ks), type(n).__name__, name, b, after[name]))
+  return kind, flatten, problems
+
+
 # ------------------------------------------------------------------ case ----
 
 def setup(ctx):
@@ -1085,6 +1197,8 @@ def run_case(ctx, i):
   p_shift = ctx.params.get('p_shift', 0.1)
   p_fn = ctx.params.get('p_functor_step', P_FUNCTOR_STEP)
   p_sec = ctx.params.get('p_secondary_step', P_SECONDARY_STEP)
+  p_tamper = ctx.params.get('p_tamper_step', P_TAMPER_STEP)
+  # (not in the sparse-getter mode: re-asking every fact would fill the memos)
   for _ in range(n_steps):
     step, aliased, follow_up = None, False, False
     if moved and follow_left > 0 and rng.random() < (0.9 if moved_by[1] else 0.35):
@@ -1137,6 +1251,7 @@ def run_case(ctx, i):
       before = c['events_expected_and_delivered']
       w = N.written(as_rebind(step), target, pre, post, c)
       if step['op'] in SECONDARY_OPS:
+        open_restored_defaults(step, target, post, w)
         c['secondary_api_steps_ok'] += 1
         c['secondary_api_steps_ok_suppressed'] += suppressed
         c['secondary_api_steps_ok_that_wrote'] += bool(w.entries or w.loose_changed)
@@ -1227,6 +1342,24 @@ def run_case(ctx, i):
           f'({names}); first: {tname} at root{ridx}{keys} {fact} = '
           f'{live[1]!r:.300}, fresh copy says {fresh[1]!r:.300}', witness())
       heal = True
+
+    if not stale and not sparse and rng.random() < p_tamper:
+      # The caller mutates a plain dict that a derived-fact getter returned.
+      ctx.label = 'derived-getters'
+      tampered = tamper_answers(rng, forest, c)
+      ctx.label = None
+      if tampered is not None and tampered[2]:
+        kind, flat, probs = tampered
+        ridx, keys, tname, fact, was, now = probs[0]
+        names = sorted({p[3] for p in probs})
+        ctx.violation(
+            'stale-derived', f'caller-mutated-answer@{kind}(flatten={flat})',
+            f'after step {len(trace)} the caller changed the dict returned by a '
+            f'{kind} getter (flatten={flat}) of a node of root{ridx}: '
+            f'{len(probs)} answers changed although the contents did not '
+            f'({names}); first: {tname} at root{ridx}{keys} {fact} was '
+            f'{was[1]!r:.300}, now {now[1]!r:.300}', witness())
+        heal = True       # the library's memos are corrupted from here on
 
     tree_problems = TM.tree_ok(forest)
     if tree_problems and all(cl == 'stale-path' for cl, _ in tree_problems):
